@@ -23,8 +23,9 @@ func Validate(sql string) error {
 
 // ValidateBytes is like Validate but accepts []byte to avoid a string copy.
 func ValidateBytes(input []byte) error {
-	// Fast path: empty/whitespace-only input is valid
-	if len(trimBytes(input)) == 0 {
+	// Fast path: empty/whitespace-only input is valid - within the size limit, which
+	// the tokenizer enforces below for everything else
+	if len(input) <= tokenizer.MaxInputSize && len(trimBytes(input)) == 0 {
 		return nil
 	}
 
@@ -129,7 +130,7 @@ func ValidateWithDialect(sql string, dialect keywords.SQLDialect) error {
 
 // ValidateBytesWithDialect is like ValidateWithDialect but accepts []byte.
 func ValidateBytesWithDialect(input []byte, dialect keywords.SQLDialect) error {
-	if len(trimBytes(input)) == 0 {
+	if len(input) <= tokenizer.MaxInputSize && len(trimBytes(input)) == 0 {
 		return nil
 	}
 
